@@ -11,11 +11,11 @@ namespace AferoVerif
 
 /-- outcome classes of a handle call (messages are never compared) -/
 inductive FErr where
-  | closed | eof | rohandle | range | inval | notdir
+  | closed | eof | ueof | rohandle | range | inval | notdir   -- ueof = io.ErrUnexpectedEOF (same class as eof)
   deriving DecidableEq, Repr, Inhabited
 
 def FErr.tag : FErr → String
-  | .closed => "closed" | .eof => "eof" | .rohandle => "rohandle"
+  | .closed => "closed" | .eof => "eof" | .ueof => "eof" | .rohandle => "rohandle"
   | .range => "range" | .inval => "inval" | .notdir => "notdir"
 
 /-- result of one handle call -/
@@ -51,7 +51,7 @@ def goSlice (d : Bytes) (lo hi : Int) : Option Bytes :=
 def readC (d : Bytes) (h : Handle) (len : Nat) : Handle × FOut :=
   if h.closed then (h, .bytes [] (some .closed))
   else if len > 0 ∧ h.pos = d.length then (h, .bytes [] (some .eof))
-  else if h.pos > d.length then (h, .bytes [] (some .eof))       -- io.ErrUnexpectedEOF: class eof
+  else if h.pos > d.length then (h, .bytes [] (some .ueof))      -- io.ErrUnexpectedEOF: class eof
   else
     let n : Int := if (d.length : Int) - h.pos ≥ len then len else d.length - h.pos
     match goSlice d h.pos (h.pos + n) with
@@ -195,7 +195,8 @@ def stepS (s : FileSt) (op : FOp) : FileSt × FOut :=
     | none => (s, .err .inval)
     | some h =>
       if h.closed then (s, .bytes [] (some .closed))
-      else if h.pos ≥ s.data.length ∧ (len > 0 ∨ h.pos > s.data.length) then (s, .bytes [] (some .eof))
+      else if h.pos > s.data.length then (s, .bytes [] (some .ueof))
+      else if h.pos = s.data.length ∧ len > 0 then (s, .bytes [] (some .eof))
       else
         let r := readS s.data h.pos.toNat len
         (s.setH i { h with pos := h.pos + r.length }, .bytes r none)
@@ -206,7 +207,7 @@ def stepS (s : FileSt) (op : FOp) : FileSt × FOut :=
       else if h.closed then (s, .bytes [] (some .closed))
       else
         let r := readS s.data off.toNat len
-        (s, .bytes r (if r.length < len ∨ off > s.data.length then some .eof else none))
+        (s, .bytes r (if off > s.data.length then some .ueof else if r.length < len then some .eof else none))
   | .write i b => match s.hs[i]? with
     | none => (s, .err .inval)
     | some h =>
